@@ -11,8 +11,10 @@ import (
 	"context"
 	"errors"
 	"fmt"
+	"io"
 	"math/rand"
 	"net"
+	"os"
 	"sort"
 	"strings"
 	"sync/atomic"
@@ -48,7 +50,14 @@ func (f *failKV) PrefixList(ctx context.Context, prefix []byte) ([][]byte, error
 		f.failures.Add(1)
 		// hostile: hand back the data together with the error
 		vals, _ := f.KV.PrefixList(ctx, prefix)
-		return vals, fmt.Errorf("kv: %w", errInjected)
+		// the kinds of failure a storage behind a DHT produces: an opaque error, a timeout, a
+		// cancellation, a stream cut short, a ring that is re-arranging itself, "not found"
+		kinds := []error{errInjected, context.DeadlineExceeded, context.Canceled, io.EOF, io.ErrUnexpectedEOF, chord.ErrKVStaleOwnership, chord.ErrNodeGone, chord.ErrNodeNoSuccessor, os.ErrNotExist, os.ErrDeadlineExceeded}
+		k := int(f.failures.Load()) % (2 * len(kinds))
+		if k >= len(kinds) {
+			return nil, fmt.Errorf("kv: %w", kinds[k-len(kinds)]) // without data
+		}
+		return vals, fmt.Errorf("kv: %w", kinds[k])
 	}
 	return f.KV.PrefixList(ctx, prefix)
 }
